@@ -4,6 +4,7 @@ from ..rules import contain as C
 from ..rules import broken as B
 from ..rules import routing as Rt
 from ..rules import scenario as SC
+from ..rules import timeouts as TO
 
 EXPLANATION = (
     "Static analysis (points-to + CFG + lock context). Decides necessary conditions of deadlock freedom, each "
@@ -45,5 +46,6 @@ def run(e, R, tier):
         SC.r_scn_result,
         SC.r_scn_feeder,
         SC.r_scn_start,
+        TO.r_exit_nested,
     ])
     R.trust("stdlib facts: mp.Queue.put starts the feeder thread; Thread.start runs run(); Executor.map calls submit")
